@@ -826,6 +826,100 @@ theorem filterM_adjoint_exec {n : ℕ} (p : Params) (h : padOK p = true)
 
 /-! ### one axis (`fft` / `ifft`, `c = M`) -/
 
+/-! ## The operator of all the theorems above is the pipeline the driver runs
+
+`filterP` / `filterPBackward` (`Model/NearField.lean`: `padAt` at `cutStart`, `Fft.dft2`, multiply, inverse `Fft.dft2`,
+`cropAt`) are scalar-polymorphic; the driver op `filt` runs them on Gaussian rationals (exact kernels of the sizes
+1, 2, 4) and the harness compares the result with the real `FourierFilter.forward` / `.backward`.  Here they are taken
+at `ℂ` with the kernels `exp(∓2πi n/M)`: they *are* `filter (dftPair2 …) (cutoutEmb p h)` (bridge
+`filter_dft2_eq_filterP`), so every clause holds for the executed definition itself (`filterP_*`), and the
+propagators are that pipeline with the transfer function `modelD` (`propagate_eq_filterP`). -/
+
+section pipeline
+variable (p : Params) (h : padOK p = true)
+include h
+
+local notation "runF" => filterP p (kF (my p)) (kF (mx p)) (kB (my p)) (kB (mx p)) (((my p * mx p : ℕ) : ℂ)⁻¹)
+local notation "runB" => filterPBackward (starRingEnd ℂ) p (kF (my p)) (kF (mx p)) (kB (my p)) (kB (mx p))
+  (((my p * mx p : ℕ) : ℂ)⁻¹)
+
+/-- **Bridge**: the abstract `FourierFilter` operator with the DFT of C01/C02 and the executable cut-out is the
+executable pipeline. -/
+theorem filter_dft2_eq_filterP (D : Fin (my p) × Fin (mx p) → ℂ) (x : Fin p.ny × Fin p.nx → ℂ) :
+    filter (dftPair2 (my p) (mx p) (my_pos h) (mx_pos h)) (cutoutEmb p h) D x
+      = fun j => runF (ext2 D) (ext2 x) (j.1 : ℕ) (j.2 : ℕ) :=
+  funext fun j => filter_dft2_apply p h D x j
+
+/-- **Bridge**, `backward`: the pipeline with the conjugated transfer function. -/
+theorem filterBackward_dft2_eq_filterPBackward (D : Fin (my p) × Fin (mx p) → ℂ) (x : Fin p.ny × Fin p.nx → ℂ) :
+    filterBackward (dftPair2 (my p) (mx p) (my_pos h) (mx_pos h)) (cutoutEmb p h) D x
+      = fun j => runB (ext2 D) (ext2 x) (j.1 : ℕ) (j.2 : ℕ) :=
+  funext fun j => filterBackward_dft2_apply p h D x j
+
+/-- The propagators are the executed pipeline with the transfer function `make_instance` selects. -/
+theorem propagate_eq_filterP (Dir : Fin (my p) × Fin (mx p) → ℂ) (x : Fin p.ny × Fin p.nx → ℂ) :
+    propagate p h Dir x = fun j => runF (ext2 (modelD p Dir)) (ext2 x) (j.1 : ℕ) (j.2 : ℕ) :=
+  filter_dft2_eq_filterP p h _ x
+
+theorem propagateBack_eq_filterPBackward (Dir : Fin (my p) × Fin (mx p) → ℂ) (x : Fin p.ny × Fin p.nx → ℂ) :
+    propagateBack p h Dir x = fun j => runB (ext2 (modelD p Dir)) (ext2 x) (j.1 : ℕ) (j.2 : ℕ) :=
+  filterBackward_dft2_eq_filterPBackward p h _ x
+
+/-- Linear: the executed pipeline, any transfer function, any padding. -/
+theorem filterP_linear (D : Fin (my p) × Fin (mx p) → ℂ) (a b : ℂ) (x y : Fin p.ny × Fin p.nx → ℂ)
+    (j : Fin p.ny × Fin p.nx) :
+    runF (ext2 D) (ext2 (a • x + b • y)) (j.1 : ℕ) (j.2 : ℕ)
+      = a * runF (ext2 D) (ext2 x) (j.1 : ℕ) (j.2 : ℕ) + b * runF (ext2 D) (ext2 y) (j.1 : ℕ) (j.2 : ℕ) := by
+  have hl := congrFun (filter_linear (dftPair2 (my p) (mx p) (my_pos h) (mx_pos h)) (cutoutEmb p h) D a b x y) j
+  rw [filter_dft2_eq_filterP, filter_dft2_eq_filterP, filter_dft2_eq_filterP] at hl
+  exact hl
+
+/-- `backward` (the pipeline with `conj D`) is the exact adjoint of `forward`: the executed pipeline, any transfer
+function, any padding. -/
+theorem filterP_adjoint (D : Fin (my p) × Fin (mx p) → ℂ) (x y : Fin p.ny × Fin p.nx → ℂ) :
+    ip y (fun j => runF (ext2 D) (ext2 x) (j.1 : ℕ) (j.2 : ℕ))
+      = ip (fun j => runB (ext2 D) (ext2 y) (j.1 : ℕ) (j.2 : ℕ)) x := by
+  rw [← filter_dft2_eq_filterP p h, ← filterBackward_dft2_eq_filterPBackward p h]
+  exact filter_adjoint _ _ D x y
+
+/-- Passive: `|D| ≤ 1` everywhere ⇒ the executed pipeline never increases the power. -/
+theorem filterP_power_nonincreasing {D : Fin (my p) × Fin (mx p) → ℂ} (hD : ∀ m, ‖D m‖ ≤ 1)
+    (x : Fin p.ny × Fin p.nx → ℂ) :
+    nsq (fun j : Fin p.ny × Fin p.nx => runF (ext2 D) (ext2 x) (j.1 : ℕ) (j.2 : ℕ)) ≤ nsq x := by
+  rw [← filter_dft2_eq_filterP p h]
+  exact power_nonincreasing _ (cutoutEmb_injective p h) hD x
+
+/-- No padding (`cutout p = none`) and `|D| = 1`: the executed pipeline conserves the power … -/
+theorem filterP_unitary (hc : cutout p = none) {D : Fin (my p) × Fin (mx p) → ℂ} (hD : ∀ m, ‖D m‖ = 1)
+    (x : Fin p.ny × Fin p.nx → ℂ) :
+    nsq (fun j : Fin p.ny × Fin p.nx => runF (ext2 D) (ext2 x) (j.1 : ℕ) (j.2 : ℕ)) = nsq x := by
+  rw [← filter_dft2_eq_filterP p h]
+  exact filter_unitary _ (cutoutEmb_bijective p h hc) hD x
+
+/-- … and the executed `backward` pipeline inverts the executed `forward` pipeline. -/
+theorem filterP_backward_inverse (hc : cutout p = none) {D : Fin (my p) × Fin (mx p) → ℂ} (hD : ∀ m, ‖D m‖ = 1)
+    (x : Fin p.ny × Fin p.nx → ℂ) (j : Fin p.ny × Fin p.nx) :
+    runB (ext2 D) (ext2 fun i : Fin p.ny × Fin p.nx => runF (ext2 D) (ext2 x) (i.1 : ℕ) (i.2 : ℕ)) (j.1 : ℕ) (j.2 : ℕ)
+      = x j := by
+  have hi := congrFun (filter_backward_inverse (dftPair2 (my p) (mx p) (my_pos h) (mx_pos h))
+    (cutoutEmb_bijective p h hc) hD x) j
+  rw [filterBackward_dft2_eq_filterPBackward, filter_dft2_eq_filterP] at hi
+  exact hi
+
+end pipeline
+
+/-- On the transfer-function branch that array is the executable `shiftD` (= `np.fft.ifftshift`, what the driver
+applies to the centred transfer function it is given) of the sampled transfer function. -/
+theorem transfer_function_is_ifftshifted {p : Params} (hb : impulseBranch p = false)
+    (Dir : Fin (my p) × Fin (mx p) → ℂ) (m : Fin (my p) × Fin (mx p)) :
+    modelD p Dir m = shiftD (my p) (mx p) (sampledTF p) (m.1 : ℕ) (m.2 : ℕ) := modelD_eq_shiftD hb Dir m
+
+/-- The hypotheses of the pipeline theorems are satisfiable with a genuinely padded, exactly executable size
+(`2×3` padded to `4×4`, the kernels of which are powers of `i`: a case the driver op `filt` runs). -/
+example : ∃ p : Params, padOK p = true ∧ my p = 4 ∧ mx p = 4 ∧ cutout p = some (1, 4, 1, 3) :=
+  ⟨{ kind := .fresnel, nx := 2, ny := 3, dx := 1/4, dy := 1/4, lam := 1/16, z := 1/2, n := 1, qx := 2, qy := 4/3,
+     sx := 1, sy := 1 }, by decide +kernel⟩
+
 section dft1
 variable (M : ℕ) (hM : 0 < M)
 
